@@ -107,16 +107,36 @@ theorem noY_pad {v : String} (hy : 'y' ∉ v.toList) (k : Nat) :
   · exact hy h
   · rcases join_dotzero_chars _ _ h with h | h <;> revert h <;> decide
 
+theorem suffix_dotzero (B V : List Char) (h : ['.', '0'] <:+ (B ++ '"' :: V)) : ∃ W, V = W ++ ['.', '0'] := by
+  obtain ⟨t, ht⟩ := h
+  have hr := congrArg List.reverse ht
+  simp only [List.reverse_append, List.reverse_cons, List.reverse_nil, List.nil_append, List.append_assoc,
+    List.cons_append] at hr
+  cases hV : V.reverse with
+  | nil => rw [hV] at hr; simp at hr
+  | cons x r =>
+    cases r with
+    | nil => rw [hV] at hr; simp at hr
+    | cons y r' =>
+      rw [hV] at hr
+      simp only [List.cons_append, List.cons.injEq] at hr
+      refine ⟨r'.reverse, ?_⟩
+      have : V = (x :: y :: r').reverse := by rw [← hV, List.reverse_reverse]
+      rw [this, ← hr.1, ← hr.2.1]
+      simp
+
+theorem take_init3 (A : List Char) (x y z : Char) : (A ++ [x, y, z]).take ((A ++ [x, y, z]).length - 3) = A := by
+  simp
+
 /-- the rewriting case that drops a trailing `.0` of the value (`precision == 3`, `<` / `>=`) -/
 def DropsZero (ms : Single) : Prop :=
   let str := leafText ms.name ms.op ms.value ms.swapped
   ¬ (countChar '.' str + 1 < 3) ∧
     (countChar '.' str + 1 == 3 && (ms.op == "<" || ms.op == ">=") && (dropRight str 1).endsWith ".0") = true
 
-/-- **the rewritten text of a merged `python_full_version` marker is read back by the grammar** (padding cases and
-the unchanged case; the `.0`-dropping case is `DropsZero`) -/
+/-- **the rewritten text of a merged `python_full_version` marker is read back by the grammar** (all four cases) -/
 theorem pyRewrite_parses (ms : Single) (hname : ms.name = "python_full_version") (hsw : ms.swapped = false)
-    (hop : ms.op ∈ ops) (hv : PlainStr ms.value) (hy : 'y' ∉ ms.value.toList) (hnz : ¬ DropsZero ms) :
+    (hop : ms.op ∈ ops) (hv : PlainStr ms.value) (hy : 'y' ∉ ms.value.toList) :
     ∃ n v, (n = "python_version" ∨ n = "python_full_version") ∧ PlainStr v ∧ 'y' ∉ v.toList ∧
       parseText (pyRewrite ms) = .ok (.one (.item n ms.op v false)) := by
   obtain ⟨name, op, value, sw, c⟩ := ms
@@ -148,7 +168,34 @@ theorem pyRewrite_parses (ms : Single) (hname : ms.name = "python_full_version")
   · rw [if_neg hprec]
     by_cases h3 : (countChar '.' (leafText "python_full_version" op value false) + 1 == 3 &&
         (op == "<" || op == ">=") && (dropRight (leafText "python_full_version" op value false) 1).endsWith ".0") = true
-    · exact absurd ⟨hprec, h3⟩ hnz
+    · rw [if_pos h3]
+      simp only [Bool.and_eq_true] at h3
+      have hends := (ends_iff _ _).1 h3.2
+      have hdz : (".0" : String).toList = ['.', '0'] := by decide
+      rw [hdz, dropRight_toList, pfv_text_chars op value hv] at hends
+      have e1 : pfvL ++ ' ' :: (op.toList ++ ' ' :: '"' :: (value.toList ++ ['"'])) =
+          (pfvL ++ ' ' :: (op.toList ++ ' ' :: '"' :: value.toList)) ++ ['"'] := by simp
+      rw [e1, take_init] at hends
+      have e2 : pfvL ++ ' ' :: (op.toList ++ ' ' :: '"' :: value.toList) =
+          (pfvL ++ ' ' :: (op.toList ++ [' '])) ++ '"' :: value.toList := by simp
+      rw [e2] at hends
+      obtain ⟨W, hW⟩ := suffix_dotzero _ _ hends
+      have hWsub : ∀ c ∈ W, c ∈ value.toList := fun c hc => by rw [hW]; simp [hc]
+      have hWp : PlainStr (String.ofList W) := fun c hc => hv c (hWsub c (by simpa using hc))
+      have hWy : 'y' ∉ (String.ofList W).toList := fun h => hy (hWsub _ (by simpa using h))
+      refine ⟨"python_version", String.ofList W, .inl rfl, hWp, hWy, ?_⟩
+      have hX : dropRight (strReplace (leafText "python_full_version" op value false) "python_full_version"
+          "python_version") 3 ++ "\"" = leafText "python_version" op (String.ofList W) false := by
+        apply str_eq_of_toList
+        rw [ltl _ _ _ hWp, pvL_eq]
+        simp only [String.toList_append, dropRight_toList, pfv_text_replaced op value hop hv hy, hq1,
+          String.toList_ofList]
+        have e3 : pvL ++ ' ' :: (op.toList ++ ' ' :: '"' :: (value.toList ++ ['"'])) =
+            (pvL ++ ' ' :: (op.toList ++ ' ' :: '"' :: W)) ++ ['.', '0', '"'] := by rw [hW]; simp
+        rw [e3, take_init3]
+        simp
+      rw [hX]
+      exact parseText_leafText _ _ _ _ (by decide) hop hWp.lex
     · rw [if_neg h3]
       exact ⟨"python_full_version", value, .inr rfl, hv, hy,
         parseText_leafText _ _ _ _ (by decide) hop hv.lex⟩
@@ -156,13 +203,82 @@ theorem pyRewrite_parses (ms : Single) (hname : ms.name = "python_full_version")
 /-- hence re-parsing it cannot raise lark's error -/
 theorem parseItemMarker_pyRewrite_no_syntax (hvc : VCErrDocumented) (ms : Single)
     (hname : ms.name = "python_full_version") (hsw : ms.swapped = false) (hop : ms.op ∈ ops)
-    (hv : PlainStr ms.value) (hy : 'y' ∉ ms.value.toList) (hnz : ¬ DropsZero ms) (e : PyErr)
+    (hv : PlainStr ms.value) (hy : 'y' ∉ ms.value.toList) (e : PyErr)
     (h : parseItemMarker (pyRewrite ms) = .error e) : e = .value ∨ e = .unmodelled := by
-  obtain ⟨n, v, _, _, _, hp⟩ := pyRewrite_parses ms hname hsw hop hv hy hnz
+  obtain ⟨n, v, _, _, _, hp⟩ := pyRewrite_parses ms hname hsw hop hv hy
   unfold parseItemMarker at h
   rw [hp] at h
   rcases bind_err _ _ _ h with h | ⟨_, _, h⟩
   · exact mkSingle_leafErr hvc _ _ _ _ h
   · simp [pure, Except.pure] at h
+
+/-- **the text `mergePythonVersion` re-parses is `pyRewrite ms`** (the model's `str'`, definitionally) -/
+theorem mergePythonVersion_eq (d : Nat) (s1 s2 : Single) (isMulti : Bool) :
+    mergePythonVersion d s1 s2 isMulti = (do
+      let (vm, fm) := if s1.name == "python_version" then (s1, s2) else (s2, s1)
+      let nc ← gpcLeaf (.single vm)
+      let nm ← mkSingleOfC "python_full_version" (.ver nc)
+      let merged ← mergeSingle d (.single nm) (.single fm) isMulti
+      match merged with
+      | none => pure none
+      | some mm =>
+        if M.beq mm (.leaf (.single nm)) then pure (some (.leaf (.single vm)))
+        else
+          match mm with
+          | .leaf (.single ms) =>
+            if ms.op == "in" || ms.op == "not in" then pure (some mm) else do
+            let r ← parseItemMarker (pyRewrite ms)
+            pure (some r)
+          | other => pure (some other)) := by
+  rw [mergePythonVersion.eq_def]
+  rfl
+
+/-- what the rewriting step needs of the merged `python_full_version` marker -/
+def PyRw (ms : Single) : Prop :=
+  ms.name = "python_full_version" ∧ ms.swapped = false ∧ ms.op ∈ ops ∧ PlainStr ms.value ∧ 'y' ∉ ms.value.toList
+
+theorem blockErr_false_ne_syntax {e : PyErr} (h : BlockErr (MErrS false) e) : e ≠ .syntax := by
+  rcases h with h | h | ⟨hf, _⟩ | h | h
+  · rw [h]; decide
+  · rw [h]; decide
+  · cases hf
+  · rw [h]; decide
+  · rw [h]; decide
+
+/-- **one step of `_merge_python_version_single_markers`**: if the nested merge of the two `python_full_version`
+markers does not raise lark's error and, when it returns a single marker that is re-written, that marker is fit for
+rewriting (`PyRw`), then the step does not raise lark's error.  The two hypotheses on the nested merge are what is
+still to be transported through `_merge_single_markers` (see Props/C19.lean, Part XIII). -/
+theorem mergePythonVersion_no_syntax {P : VC → Prop} (hvc : VCErrDocumented) (hP : VCOpsMin P) (d : Nat)
+    (s1 s2 : Single) (isMulti : Bool)
+    (hnest_err : ∀ l1 l2 e, mergeSingle d l1 l2 isMulti = .error e → e ≠ .syntax)
+    (hnest_ok : ∀ l1 l2 ms, mergeSingle d l1 l2 isMulti = .ok (some (.leaf (.single ms))) →
+      ¬ ((ms.op == "in" || ms.op == "not in") = true) → PyRw ms)
+    (e : PyErr) (h : mergePythonVersion d s1 s2 isMulti = .error e) : e ≠ .syntax := by
+  rw [mergePythonVersion_eq] at h
+  split at h
+  rename_i vm fm _
+  rcases bind_err _ _ _ h with h | ⟨nc, hnc, h⟩
+  · exact blockErr_false_ne_syntax ((gpcLeaf_res (sb := false) hvc hP _).of_err h)
+  have hpnc : P nc := (gpcLeaf_res (sb := false) hvc hP _).of_ok hnc
+  rcases bind_err _ _ _ h with h | ⟨nm, _, h⟩
+  · exact blockErr_false_ne_syntax ((mkSingleOfC_res (sb := false) hvc hP _ _ (lcok_ver hpnc)).of_err h)
+  rcases bind_err _ _ _ h with h | ⟨merged, hmerged, h⟩
+  · exact hnest_err _ _ _ h
+  cases merged with
+  | none => simp [pure, Except.pure] at h
+  | some mm =>
+    simp only at h
+    split at h
+    · simp [pure, Except.pure] at h
+    · split at h
+      · split at h
+        · simp [pure, Except.pure] at h
+        · rename_i hin
+          rcases bind_err _ _ _ h with h | ⟨_, _, h⟩
+          · obtain ⟨h1, h2, h3, h4, h5⟩ := hnest_ok _ _ _ hmerged hin
+            rcases parseItemMarker_pyRewrite_no_syntax hvc _ h1 h2 h3 h4 h5 e h with h | h <;> (rw [h]; decide)
+          · simp [pure, Except.pure] at h
+      · simp [pure, Except.pure] at h
 
 end Poetry.ParserTotal
